@@ -56,7 +56,8 @@ ASSUMPTIONS = [
     'transport double: circuits.node.client.TCPClient / circuits.node.server.TCPServer are replaced by components that record '
     '`write`; bytes reach the other side as `read` events in order, each byte once (what C11/C12 establish for the real sockets)',
     'all nodes of a case live in one process, as in the library\'s own test-suite; class-level containers of Protocol/Server/Node '
-    'are emptied before every case (their sharing inside one case is part of what is explored)',
+    'are emptied before every case (their sharing inside one case is part of what is explored: the two client nodes use one peer '
+    'name for different servers)',
     'argument and result values are JSON values with string keys (tuples / non-string keys are not JSON-representable)',
     'round-trip world is driven by tick() (documented application main loop); the hostile world by the real run()',
     'sizes: small, 5 000 B, 10 000 B, 70 000 B, 1 MiB (hostile) - representatives per threshold, not all sizes',
@@ -212,7 +213,7 @@ def meta_keys():
 # trees
 
 
-LINKS = [('C', 'ps', 'S'), ('C', 'pt', 'T'), ('D', 'pd', 'S')]
+LINKS = [('C', 'ps', 'S'), ('C', 'pt', 'T'), ('D', 'pt', 'S')]     # (two client nodes use the same peer name for different servers)
 PORTS = {'S': 9001, 'T': 9002}
 NROUTES = 6   # route r: link r // 2 ; r % 2 == 0: client -> server (remote), 1: server -> client (Server.send)
 
@@ -440,7 +441,7 @@ class Net(BaseWorld):
         for name in ('S', 'T'):
             self.trees[name] = Tree(self, name, 'server', tuple(fw.get(name, (None, None))))
         self.trees['C'] = Tree(self, 'C', 'client', tuple(fw.get('C', (None, None))), peers=('ps', 'pt'))
-        self.trees['D'] = Tree(self, 'D', 'client', tuple(fw.get('D', (None, None))), peers=('pd',))
+        self.trees['D'] = Tree(self, 'D', 'client', tuple(fw.get('D', (None, None))), peers=('pt',))
         for li, (ctree, peer, stree) in enumerate(LINKS):
             self.trees[stree].connect(li)
         self.cuts = spec.get('cuts', {})
